@@ -53,6 +53,8 @@ func c05(tier string) []*explore.Scenario {
 	// must not reach - or create - a handler invocation that does not own the id
 	out = append(out, donors("C05", []*explore.Scenario{c14One([][2]string{{"Bidi", "lateempty"}}, 1), c14One([][2]string{{"CStream", "lateempty"}}, 1), c14One([][2]string{{"Bidi", "reset"}}, 1)})...)
 	out = append(out, c05FailedWrite(2), c05FailedWrite(1))
+	// per-call order over the HTTP transport (one POST, one serving goroutine per envelope)
+	out = append(out, explore.Sharded(c19HTTPOrder("C05", 2, 2), 8)...)
 	out = append(out, c01FailedWriteOlder("C05", 1))
 	for _, way := range []string{"cancelled", "expired", "expires-in-write"} {
 		out = append(out, c05DeadContextCall("C05", way, 64, 1), c05DeadContextCall("C05", way, 0, 1))
